@@ -17,13 +17,14 @@ From GV Require Import Lib.Tactics Lib.Bytes Rlp.Item Rlp.Codec Trie.Hex Trie.No
 From GV Require Import State.Ref State.Journal State.JournalProofs State.Commit State.CommitProofs.
 Local Open Scope N_scope.
 
-Definition addr_ok (a : addr) : Prop := a < 2 ^ 160.
-Definition slot_ok (k : slot) : Prop := k < 2 ^ 256.
 Definition hexk (k : list N) : list N := keybytes_to_hex k.
 
 Section Reopen.
   Variable H : list N → list N.
   Hypothesis H_bytes : ∀ x, forallb byteb (H x) = true.
+  (* the addresses and slots in play (the finite universe on which the keys H(address),
+     H(slot) are assumed collision free by the users of this section) *)
+  Variables (addr_ok : addr → Prop) (slot_ok : slot → Prop).
   (* the tries in play and collision freedom of the root hash among them *)
   Variable play : node → Prop.
   Hypothesis play_empty : play NEmpty.
